@@ -7,7 +7,7 @@ of the __data view and of the attribute view, canonical memory-region numbering 
 list/array mode, the user's stale reference, the last copy) is compared with the model state; the
 property's clauses are additionally judged directly on the real object.
 """
-import os, sys, json, itertools, time
+import os, sys, json, itertools, time, zlib
 import numpy as np
 import common
 
@@ -379,6 +379,7 @@ def run(tier, replay=None):
     if res.violated:
         raise common.MachineryError("repaired-code model violates %s" % res.violated)
     n_bad_lines = 0
+    nskipped = 0
     seen = set()
     t0 = time.time()
     with contextlib.redirect_stdout(io.StringIO()):
@@ -391,6 +392,10 @@ def run(tier, replay=None):
             ops = [list(e["op"]) for e in h]
             key = json.dumps(ops)
             if key in seen:
+                continue
+            # thorough: every transition up to depth 3, a seeded quarter of the ~860k depth-4 transitions
+            if len(ops) >= 4 and (zlib.crc32(key.encode()) + common.seed()) % 4 != 0:
+                nskipped += 1
                 continue
             seen.add(key)
             model_final = fix_model(h[-1]["st"])
@@ -407,6 +412,7 @@ def run(tier, replay=None):
     if n_bad_lines:
         raise common.MachineryError("%d unparsable TLC output lines" % n_bad_lines)
     chk.notes["replay_s"] = round(time.time() - t0, 1)
+    chk.notes["depth4_transitions_not_replayed"] = nskipped
 
     # 2. deeper: invariants only (thorough), and random long behaviours with per-step comparison
     if tier == "thorough" and len(chk.violations) == 0:
